@@ -328,6 +328,21 @@ func (w *World) resolveRef(f *spec.File, ref string) (string, error) {
 		}
 		return name
 	}
+	qualify0 := qualify
+	qualify = func(name string) string {
+		// an alias (types.BufferInterface = parser types.BufferInterface) names the type it stands for
+		q := qualify0(name)
+		if i := strings.LastIndex(q, "."); i > 0 {
+			if tp := w.TypesPkg(q[:i]); tp != nil {
+				if tn, ok := tp.Scope().Lookup(q[i+1:]).(*types.TypeName); ok && tn.IsAlias() {
+					if n, ok := types.Unalias(tn.Type()).(*types.Named); ok && n.Obj().Pkg() != nil {
+						return n.Obj().Pkg().Path() + "." + n.Obj().Name()
+					}
+				}
+			}
+		}
+		return q
+	}
 	var base, rest string
 	if strings.HasPrefix(ref, "(") {
 		i := strings.Index(ref, ")")
@@ -651,6 +666,17 @@ func (w *World) findMutableFields() {
 				if _, fresh := v.(*ssa.Alloc); fresh || ctor {
 					continue
 				}
+				// the object was allocated in this function and is held in a variable assigned exactly once (captured by
+				// a closure, so SSA keeps it in a cell): the store still initialises
+				if ld, ok := v.(*ssa.UnOp); ok {
+					if cell, ok := ld.X.(*ssa.Alloc); ok {
+						if sts := storesTo(cell); len(sts) == 1 {
+							if obj, ok := sts[0].(*ssa.Alloc); ok && obj.Parent() == f {
+								continue
+							}
+						}
+					}
+				}
 				pt, ok := types.Unalias(v.Type()).Underlying().(*types.Pointer)
 				if !ok {
 					continue
@@ -908,6 +934,10 @@ func (w *World) allocInit(g *ssa.Global) bool {
 				return true
 			case *ssa.Call:
 				if f := x.Call.StaticCallee(); f != nil && f.Pkg != nil && f.Pkg.Pkg.Path() == "errors" && f.Name() == "New" {
+					return true
+				}
+				// regexp.MustCompile returns a fresh non-nil *Regexp or panics (at init time)
+				if f := x.Call.StaticCallee(); f != nil && f.Pkg != nil && f.Pkg.Pkg.Path() == "regexp" && f.Name() == "MustCompile" {
 					return true
 				}
 			}
